@@ -81,7 +81,8 @@ def get_flask_blueprint(converter: Converter, **kwargs: Any) -> flask.Blueprint:
         prefix, _, identifier = f"{prefix}{converter.delimiter}{identifier}".partition(
             converter.delimiter
         )
-        location = converter.expand_pair(prefix, identifier)
+        # expand the CURIE itself so a subclass' identifier standardization applies
+        location = converter.expand(f"{prefix}{converter.delimiter}{identifier}")
         if location is None:
             prefixes = "".join(f"\n- {p}" for p in sorted(converter.get_prefixes()))
             return abort(FAILURE_CODE, f"Invalid prefix: {prefix}. Use one of:{prefixes}")
@@ -232,7 +233,8 @@ def get_fastapi_router(converter: Converter, **kwargs: Any) -> fastapi.APIRouter
         prefix, _, identifier = f"{prefix}{converter.delimiter}{identifier}".partition(
             converter.delimiter
         )
-        location = converter.expand_pair(prefix, identifier)
+        # expand the CURIE itself so a subclass' identifier standardization applies
+        location = converter.expand(f"{prefix}{converter.delimiter}{identifier}")
         if location is None:
             prefixes = ", ".join(sorted(converter.get_prefixes()))
             raise HTTPException(
